@@ -279,7 +279,8 @@ def outputs_comparable(spec, d):
 
 
 def key(case):
-    return f"{case.get('kind', 'engine')}:alias={case.get('alias')!r}:{case.get('mode', 'plain')}"
+    return f"{case.get('kind', 'engine')}:alias={case.get('alias')!r}:{case.get('mode', 'plain')}" + (
+        f":switched-from={case['switch_from']!r}" if case.get("switch_from") is not None else "")
 
 
 def oracle(case):
@@ -309,6 +310,13 @@ def oracle_(case):
             for bi, b in enumerate(e.rule_blocks):
                 for ri, r in enumerate(b.rules):
                     r.weight = [0.5, 0.25, 0.75][(bi + ri) % 3] if abs(float(r.weight) - 0.5) > 1e-9 else 0.25
+        if case.get("switch_from") is not None:
+            # a history: something was represented under another alias, then the alias was changed by plain assignment
+            # (not through a context); the code exported now must use the alias in force now, everywhere
+            fl.settings.alias = case["switch_from"]
+            repr(e), [repr(c) for c in components(e)]
+            fl.PythonExporter(encapsulated=False).to_string(e)
+            fl.settings.alias = alias
         targets = [e] if case.get("kind", "engine") == "engine" else components(e)
         if case.get("kind") == "component" and "index" in case:
             targets = [targets[case["index"]]]
@@ -391,6 +399,14 @@ def engine_cases(ctx):
         yield case
 
 
+def switched(case, i):
+    """the same case after the alias was switched by assignment from another one"""
+    others = [a for a in ALIASES if a != case["alias"]]
+    c = dict(case)
+    c["switch_from"] = others[i % len(others)]
+    return c
+
+
 def variants(case):
     """the other alias / mode / formatting combinations of the same engine"""
     for alias in ALIASES:
@@ -432,6 +448,9 @@ def correspond(ctx):
             n_full += 1
         comp = dict(case, kind="component", mode="plain" if ci % 2 else "encapsulated")
         todo.append(comp)
+        if ci % 3 == 0:
+            todo.append(switched(case, ci))
+            todo.append(switched(comp, ci + 1))
         failed = False
         for c in todo:
             ok, detail = oracle(c)
